@@ -263,10 +263,13 @@ namespace BitSerializer::Csv::Detail
 			mValueIndex = it - mHeaders.cbegin();
 		}
 
-		const auto& valueMeta = mRowValuesMeta.at(mValueIndex);
+		auto& valueMeta = mRowValuesMeta.at(mValueIndex);
 		if (valueMeta.HasEscapedChars)
 		{
 			out_value = UnescapeValue(mDecodedBuffer.data() + valueMeta.Offset, mDecodedBuffer.data() + valueMeta.Offset + valueMeta.Size);
+			// The value has been unescaped in place, keep that in mind for the case when it will be read again
+			valueMeta.Size = out_value.size();
+			valueMeta.HasEscapedChars = false;
 		}
 		else
 		{
@@ -279,10 +282,13 @@ namespace BitSerializer::Csv::Detail
 	{
 		if (mValueIndex < mRowValuesMeta.size())
 		{
-			const auto& valueMeta = mRowValuesMeta.at(mValueIndex);
+			auto& valueMeta = mRowValuesMeta.at(mValueIndex);
 			if (valueMeta.HasEscapedChars)
 			{
 				out_value = UnescapeValue(mDecodedBuffer.data() + valueMeta.Offset, mDecodedBuffer.data() + valueMeta.Offset + valueMeta.Size);
+				// The value has been unescaped in place, keep that in mind for the case when it will be read again
+				valueMeta.Size = out_value.size();
+				valueMeta.HasEscapedChars = false;
 			}
 			else
 			{
